@@ -42,6 +42,15 @@ register("C14", _load_c14, {"quick": {"runs": 24000, "wall": 90},
                             "thorough": {"runs": 600000, "wall": 1200}})
 
 
+def _load_c15():
+    from .props.c15 import C15A
+    return [C15A()]
+
+
+register("C15", _load_c15, {"quick": {"runs": 3000, "wall": 90},
+                            "thorough": {"runs": 100000, "wall": 1200}})
+
+
 # ------------------------------------------------------------------ worker
 
 def _work(args):
